@@ -183,7 +183,10 @@ static void run_ot(const NaorPinkasEOTP &ot, const Grp &P, Variant v, const std:
 				if (mpz_invert(inv.w(), t, P.p)) { mpz_mul(val.w(), sm[2 * i + 1], inv); mpz_mod(val.w(), val, P.p); out = hx(val); }
 				if (rec) Rec("ot_curious").z(P.p).z(C.b).t(resp_tok(sm)).d(i).t(out);
 				Z mi; mpz_mod(mi.w(), Ms[i], P.p);
-				if (out != "none" && zsgn(mi) != 0 && zsgn(C.s[i]) != 0 && !mpz_cmp(val, mi))
+				// optimised variant: z_i = z_0 g^i coincides with z_sigma when i = sigma mod q (only possible for N > q, tiny groups);
+				// the theorem C18_opt_other_exact gives exponent ((i - sigma) mod q) * s_i, which is 0 then
+				bool same_z = false; if (v == VOPT) { Z d((long)i - (long)sigma); same_z = mpz_divisible_p(d.v, P.q.v) != 0; }
+				if (out != "none" && zsgn(mi) != 0 && zsgn(C.s[i]) != 0 && !same_z && !mpz_cmp(val, mi))
 					propfail("other-message-opens:" + key, "ciphertext " + std::to_string(i) + " (not chosen) decrypts to its message under the chooser's secrets although s_i != 0" + ctx);
 			}
 		}
